@@ -609,7 +609,9 @@ def seqOKW : List (List Char × LTok) → Bool
 
 /-! ## Databases -/
 
-inductive DType where | integer | string | date
+/-- `:float` columns: only the type check of conditions is modelled; comparing their values is left
+to the real code (`unmodelled`), and the generators never make them keys -/
+inductive DType where | integer | string | date | float
 deriving Repr, DecidableEq
 
 /-- a cast value (`tsdb.cast`): `None`, int, str, datetime (as YYYYMMDDhhmmss) -/
@@ -644,6 +646,7 @@ def noDot (s : String) : Bool := !s.toList.contains '.'
 def Rel.wf (r : Rel) : Bool :=
   (r.fields.map (·.name)).Nodup && r.rows.all (fun row => row.length = r.fields.length)
     && noDot r.name && r.fields.all (fun f => noDot f.name)
+    && r.fields.all (fun f => !(f.isKey && f.dtype = .float))   -- float values are not modelled: no float keys
 
 def DB.wf (db : DB) : Bool := (db.map (·.name)).Nodup && db.all Rel.wf
 
@@ -723,12 +726,23 @@ def litType : Lit → Option DType
   | .date (some _) => some .date
   | .date none => none          -- `isinstance(None, datetime)` is false for every column
 
+/-- `isinstance(literal, _expected_type(datatype))`: the literal's type is the column's; a `:float`
+column also accepts an integer literal (`(int, float)`) -/
+def litFits (dt : DType) (l : Lit) : Bool :=
+  match dt, l with
+  | .float, .int _ => true
+  | .float, _ => false
+  | dt, l => litType l = some dt
+
 mutual
 def resolveCond (res : ColRef → Except Err (QName × Field)) : Cond ColRef → Except Err (Cond QName)
   | .leaf op c l =>
     match res c with
     | .error e => .error e
-    | .ok (q, f) => if litType l = some f.dtype then .ok (.leaf op q l) else .error .tsqlError
+    | .ok (q, f) =>
+      if litFits f.dtype l then
+        (if f.dtype = .float then .error .unmodelled else .ok (.leaf op q l))
+      else .error .tsqlError
   | .not c =>
     match resolveCond res c with
     | .error e => .error e
